@@ -11,6 +11,16 @@ package query
 //@ func encodeProcessorOptions
 //@   reads_all opt except Exprs(not shipped by the current codec: runtime-only or recomputed on the store; not decided), FieldAux(not shipped by the current codec: runtime-only or recomputed on the store; not decided), TagAux(not shipped by the current codec: runtime-only or recomputed on the store; not decided), Parallel(not shipped by the current codec: runtime-only or recomputed on the store; not decided), InterruptCh(not shipped by the current codec: runtime-only or recomputed on the store; not decided), Authorizer(not shipped by the current codec: runtime-only or recomputed on the store; not decided), ChunkedSize(not shipped by the current codec: runtime-only or recomputed on the store; not decided), Chunked(not shipped by the current codec: runtime-only or recomputed on the store; not decided), AbortChan(not shipped by the current codec: runtime-only or recomputed on the store; not decided), RowsChan(not shipped by the current codec: runtime-only or recomputed on the store; not decided), isTimeFirstKey(not shipped by the current codec: runtime-only or recomputed on the store; not decided), StmtId(not shipped by the current codec: runtime-only or recomputed on the store; not decided), CompareOffset(not shipped by the current codec: runtime-only or recomputed on the store; not decided), LowerOpt(not shipped by the current codec: runtime-only or recomputed on the store; not decided), BinOp(not shipped by the current codec: runtime-only or recomputed on the store; not decided), IsCountValues(not shipped by the current codec: runtime-only or recomputed on the store; not decided), SimpleTagset(not shipped by the current codec: runtime-only or recomputed on the store; not decided), RemoveMetric(not shipped by the current codec: runtime-only or recomputed on the store; not decided), NoPushDownDim(not shipped by the current codec: runtime-only or recomputed on the store; not decided), ctx(not shipped by the current codec: runtime-only or recomputed on the store; not decided), InConditons(not shipped by the current codec: runtime-only or recomputed on the store; not decided), IsSameDims(not shipped by the current codec: runtime-only or recomputed on the store; not decided), IsArrowQuery(not shipped by the current codec: runtime-only or recomputed on the store; not decided)
 
+// ... and the fill value of `fill(<number>)` is shipped whichever numeric type the statement gave it: the grammar yields
+// int64 for `fill(5)` and float64 for `fill(5.0)` (an integer fill value used to be dropped: the store filled with 0).
+//@   stable query.ProcessorOptions.FillValue
+//@   store ProcessorOptions.FillValue
+//@     requires [a_float_fill_value_is_shipped_as_it_is] tagis(opt.FillValue, "float64") && !isNaN(as(opt.FillValue, "float64")) ==> val == as(opt.FillValue, "float64")
+//@   ensures [an_integer_fill_value_is_shipped] tagis(old(opt.FillValue), "int64") ==> shippedFill
+//@   ghost shippedFill bool = false
+//@   store ProcessorOptions.FillValue
+//@     set shippedFill = true
+
 //@ func decodeProcessorOptions
 //@   writes_all ProcessorOptions except Exprs(not shipped by the current codec: runtime-only or recomputed on the store; not decided), FieldAux(not shipped by the current codec: runtime-only or recomputed on the store; not decided), TagAux(not shipped by the current codec: runtime-only or recomputed on the store; not decided), Parallel(not shipped by the current codec: runtime-only or recomputed on the store; not decided), InterruptCh(not shipped by the current codec: runtime-only or recomputed on the store; not decided), Authorizer(not shipped by the current codec: runtime-only or recomputed on the store; not decided), ChunkedSize(not shipped by the current codec: runtime-only or recomputed on the store; not decided), Chunked(not shipped by the current codec: runtime-only or recomputed on the store; not decided), AbortChan(not shipped by the current codec: runtime-only or recomputed on the store; not decided), RowsChan(not shipped by the current codec: runtime-only or recomputed on the store; not decided), isTimeFirstKey(not shipped by the current codec: runtime-only or recomputed on the store; not decided), StmtId(not shipped by the current codec: runtime-only or recomputed on the store; not decided), CompareOffset(not shipped by the current codec: runtime-only or recomputed on the store; not decided), LowerOpt(not shipped by the current codec: runtime-only or recomputed on the store; not decided), BinOp(not shipped by the current codec: runtime-only or recomputed on the store; not decided), IsCountValues(not shipped by the current codec: runtime-only or recomputed on the store; not decided), SimpleTagset(not shipped by the current codec: runtime-only or recomputed on the store; not decided), RemoveMetric(not shipped by the current codec: runtime-only or recomputed on the store; not decided), NoPushDownDim(not shipped by the current codec: runtime-only or recomputed on the store; not decided), ctx(not shipped by the current codec: runtime-only or recomputed on the store; not decided), InConditons(not shipped by the current codec: runtime-only or recomputed on the store; not decided), IsSameDims(not shipped by the current codec: runtime-only or recomputed on the store; not decided), IsArrowQuery(not shipped by the current codec: runtime-only or recomputed on the store; not decided)
 
